@@ -107,6 +107,7 @@ type Translator struct {
 	parent  *Translator
 	callOrd map[*ssa.Call]int
 	bodyLocals bool // ghost assertions inside a loop body may name the body's own locals
+	noSafety bool
 	curCall int
 	curCallOrd int // ordinal of the call being translated (only when the contract has hints)
 	rets    []retEdge
@@ -177,7 +178,7 @@ func (t *Translator) oblige(st *State, kind, label string, tags []string, goal, 
 }
 
 func (t *Translator) safety(st *State, what string, goal string, pos token.Pos, expr string) {
-	if goal == "true" {
+	if goal == "true" || t.noSafety {
 		return
 	}
 	t.oblige(st, "safety."+what, expr, t.safetyTags, goal, t.w.pos(pos), expr)
@@ -1082,6 +1083,47 @@ func (t *Translator) invEnv(st *State, li *loopInfo) *Env {
 		}
 		if best != nil {
 			vars[name] = binding{term: st.locals[best], typ: &SType{Go: best.Type().(*types.Pointer).Elem()}}
+		}
+	}
+	// named variables that live in the heap (their address is taken somewhere): visible through their current content
+	for _, b := range t.fn.Blocks {
+		for _, in := range b.Instrs {
+			a, ok := in.(*ssa.Alloc)
+			if !ok || !a.Heap || a.Comment == "" {
+				continue
+			}
+			if _, taken := vars[a.Comment]; taken {
+				continue
+			}
+			if li != nil && li.blocks[b] && b != li.header && !t.bodyLocals {
+				continue
+			}
+			r, known := t.vals[a]
+			if !known {
+				continue
+			}
+			elem := a.Type().(*types.Pointer).Elem()
+			func() {
+				defer func() { t.noSafety = false; recover() }()
+				t.noSafety = true // reading a variable for a specification raises no obligation
+				v := t.loadPath(st.clone(), &Path{ref: r, refT: elem}, token.NoPos)
+				vars[a.Comment] = binding{term: v, typ: &SType{Go: elem}}
+			}()
+		}
+	}
+	// the hidden index of the range loop number N is also visible as rangeindexN (nested slice ranges)
+	for _, l2 := range t.loops {
+		if l2 == nil || l2.n == 0 {
+			continue
+		}
+		for _, in := range l2.header.Instrs {
+			if u, ok := in.(*ssa.UnOp); ok && u.Op == token.MUL {
+				if a, isA := u.X.(*ssa.Alloc); isA && a.Comment == "rangeindex" {
+					if v, live := st.locals[a]; live {
+						vars[fmt.Sprintf("rangeindex%d", l2.n)] = binding{term: v, typ: &SType{Go: a.Type().(*types.Pointer).Elem()}}
+					}
+				}
+			}
 		}
 	}
 	// heap-allocated named locals (escaping): expose through box
